@@ -99,6 +99,13 @@ def cases(draw, tier="quick"):
     if ups:
         strings.append(draw(st.sampled_from(ups)) + "1")
     strings += ps[:3]
+    if draw(st.integers(0, 3)) == 0:
+        # very long inputs (query strings, data URIs, pasted text): any depth- or size-limited helper shows here
+        long_tail = draw(st.sampled_from(["x" * 1500, "9" * 3000, "a/" * 1200, "é" * 2048]))
+        strings.append((draw(st.sampled_from(ups)) if ups else "") + long_tail)
+        strings.append(long_tail)
+        if ps:
+            strings.append(draw(st.sampled_from(ps)) + d + long_tail)
     pairs = [[p, "1"] for p in ps[:3]]
     for _ in range(draw(st.integers(1, 5))):
         p = draw(st.one_of(st.sampled_from(ps), st.text(S.UNICODE, max_size=3), st.just(""))) if ps else draw(st.text(S.UNICODE, max_size=3))
